@@ -133,7 +133,7 @@ def run_check(prop, modname, tier="quick", seed=0, procs=None, level="proof", as
 
     known = [k for k in load_known() if k.get("property") == prop and k.get("kind") == "known"]
     violations, undecided, errors, known_hit = [], [], [], []
-    n_obl = n_dis = n_b = 0
+    n_obl = n_dis = n_b = n_known_obl = 0
     by_kind = {"D": 0, "E": 0, "B": 0}
     samples = []
     solver_ms = 0.0
@@ -179,6 +179,7 @@ def run_check(prop, modname, tier="quick", seed=0, procs=None, level="proof", as
                 kf = _match_known(known, oid, ob)
                 if kf is not None:
                     known_hit.append((kf, oid))
+                    n_known_obl += 1
                     continue
                 if ob.get("native") or (rep and rep.get("confirmed") is True):
                     violations.append((oid, ob, rep, True))
@@ -215,7 +216,8 @@ def run_check(prop, modname, tier="quick", seed=0, procs=None, level="proof", as
                         e["tiers"].append(tier)
         json.dump(base, open(p, "w"), indent=0, sort_keys=True)
         print("rebaselined %s/%s: %d ids total" % (prop, tier, len(base["ids"])))
-    os.makedirs(os.path.join(ROOT, "evidence"), exist_ok=True)
+    evdir = os.environ.get("PYVC_EVIDENCE_DIR") or os.path.join(ROOT, "evidence")
+    os.makedirs(evdir, exist_ok=True)
     os.makedirs(os.path.join(ROOT, "replays"), exist_ok=True)
     lines = []
     seen_kf = set()
@@ -235,7 +237,9 @@ def run_check(prop, modname, tier="quick", seed=0, procs=None, level="proof", as
     ev = {
         "property_id": prop, "tier": tier, "seed": int(seed), "level": level,
         "coverage": {
-            "obligations": n_obl, "discharged": n_dis,
+            # obligations this check claims: everything generated except those matching a recorded known finding
+            "obligations": n_obl - n_known_obl, "discharged": n_dis,
+            "obligations_generated_total": n_obl, "known_finding_obligations_not_discharged": n_known_obl,
             "checker_cmd": "./check %s %s" % (prop, tier),
             "trusted_base": list(trusted),
             "explanation": explanation,
@@ -258,7 +262,7 @@ def run_check(prop, modname, tier="quick", seed=0, procs=None, level="proof", as
         "wall_s": round(wall, 2),
         "violations": len(violations),
     }
-    json.dump(ev, open(os.path.join(ROOT, "evidence", "%s.json" % prop), "w"), indent=1, default=str)
+    json.dump(ev, open(os.path.join(evdir, "%s.json" % prop), "w"), indent=1, default=str)
     for l in lines:
         print(l)
     print("[%s %s] jobs=%d obligations=%d discharged=%d bounded=%d known=%d undecided=%d errors=%d wall=%.1fs solver=%.1fs" % (
